@@ -259,7 +259,8 @@ def run_stream(exe, items, workdir, repo, steps=200000, mem=5000, stack=200, tag
     first = 0
     env = dict(os.environ, ASAN_OPTIONS="detect_leaks=1:abort_on_error=0:exitcode=0:allocator_may_return_null=1:malloc_context_size=12",
                LSAN_OPTIONS="max_leaks=0:exitcode=0:print_suppressions=0", UBSAN_OPTIONS="print_stacktrace=1",
-               NEVER_PATH="%s:%s" % (os.path.join(repo, "sample"), os.path.join(repo, "sample", "lib")))
+               NEVER_PATH="%s:%s:%s" % (os.path.join(repo, "sample"), os.path.join(repo, "sample", "lib"),
+                                         os.path.join(os.path.dirname(os.path.dirname(os.path.abspath(__file__))), "corpus", "leak", "modules")))
     restarts = 0
     while first < len(items):
         resf = os.path.join(workdir, "%s_res_%d.txt" % (tag, first))
